@@ -681,6 +681,26 @@ def r02_7(ctx):
                                 cs = [lf[2] for lf in leaves if lf[0] == "call"]
                                 src_call = cs[0] if len(cs) == 1 else None
                         tests.append((b, c, vals[c], t["otherwise"], src_call, t))
+        # the same test written as `read.peek() == Some(b']')`
+        for b, t in f.calls():
+            if not callee_is(t, "eq", "ne") or "Option<u8>" not in " ".join((t.get("rgargs") or []) + (t.get("gargs") or [])):
+                continue
+            cval, src_call = None, None
+            for a in t["args"][:2]:
+                l = op_local(a)
+                sl, leaves = backward_slice(f, [l]) if l is not None else (set(), [])
+                for lf in leaves:
+                    if lf[0] == "const" and isinstance(lf[1], dict) and lf[1].get("bytes") and "Option<u8>" in lf[1].get("ty", ""):
+                        cval = bytes.fromhex(lf[1]["bytes"])[-1]
+                cs = [lf[2] for lf in leaves if lf[0] == "call"]
+                if len(cs) == 1 and cval is None or (len(cs) == 1 and not any(lf[0] == "const" for lf in leaves)):
+                    src_call = cs[0]
+                if isinstance(a, dict) and a.get("bytes") and "Option<u8>" in a.get("ty", ""):
+                    cval = bytes.fromhex(a["bytes"])[-1]
+            e = bool_switch_edges(f, t["dest"][0])
+            if cval in (93, 125) and e:
+                hit, miss = (e[0], e[1]) if callee_is(t, "eq") else (e[1], e[0])
+                tests.append((b, cval, hit, miss, src_call, t))
         if not tests:
             continue
         elem_calls = {b for b, t in f.calls() if t["callee"].rsplit("::", 1)[-1] in ("skip_one", "skip_one_unchecked", "parse_value", "parse_value2", "parse_array", "parse_array2", "parse_object", "parse_object2", "parse_number_inplace", "parse_number_visit", "parse_string_inplace", "parse_string_owned", "skip_string", "parse_literal_visit", "get_many_rec", "get_by_schema_rec")}
